@@ -86,6 +86,8 @@ func main() {
 		s = runDeterm(*seed, *n, *shards, *out, tmp, h.GenParams{
 			MaxCap: *maxcap, MinOps: *minops, MaxOps: *maxops, BigEvery: *bigevery, Queries: 0, DetMode: true,
 		})
+	case "concurrent":
+		s = runConcurrent(*seed, *n, *out, tmp)
 	case "verify":
 		s = runVerify(*seed, *n, *shards, *out, *mode, *thorough)
 	case "backend":
